@@ -50,6 +50,7 @@ from esrally.client import delete_api_keys
 from esrally.driver import runner, scheduler
 from esrally.track import TrackProcessorRegistry, load_track, load_track_plugins
 from esrally.utils import console, convert, net
+from esrally.utils import veriftrace  # no-op unless ESRALLY_VERIF_TRACE is set
 
 
 ##################################
@@ -239,16 +240,19 @@ class DriverActor(actor.RallyActor):
         self.logger.error("Main driver received a fatal indication from a load generator (%s). Shutting down.", poisonmsg.details)
         self.driver.close()
         self.send(self.benchmark_actor, actor.BenchmarkFailure("Fatal track or load generator indication", poisonmsg.details))
+        veriftrace.enabled() and veriftrace.emit("driver", "final", kind="failure")
 
     def receiveMsg_BenchmarkFailure(self, msg, sender):
         self.logger.error("Main driver received a fatal exception from a load generator. Shutting down.")
         self.driver.close()
         self.send(self.benchmark_actor, msg)
+        veriftrace.enabled() and veriftrace.emit("driver", "final", kind="failure")
 
     def receiveMsg_BenchmarkCancelled(self, msg, sender):
         self.logger.info("Main driver received a notification that the benchmark has been cancelled.")
         self.driver.close()
         self.send(self.benchmark_actor, msg)
+        veriftrace.enabled() and veriftrace.emit("driver", "final", kind="cancelled")
 
     def receiveMsg_ActorExitRequest(self, msg, sender):
         self.logger.info("Main driver received ActorExitRequest and will terminate all load generators.")
@@ -263,6 +267,7 @@ class DriverActor(actor.RallyActor):
             else:
                 self.logger.error("Worker [%d] has exited prematurely. Aborting benchmark.", worker_index)
                 self.send(self.benchmark_actor, actor.BenchmarkFailure(f"Worker [{worker_index}] has exited prematurely."))
+                veriftrace.enabled() and veriftrace.emit("driver", "final", kind="failure")
         else:
             self.logger.debug("A track preparator has exited.")
 
@@ -294,6 +299,7 @@ class DriverActor(actor.RallyActor):
     @actor.no_retry("driver")  # pylint: disable=no-value-for-parameter
     def receiveMsg_UpdateSamples(self, msg, sender):
         self.driver.update_samples(msg.samples)
+        veriftrace.enabled() and veriftrace.emit("driver", "samples", w=msg.client_id, n=len(msg.samples), raw=len(self.driver.raw_samples))
 
     @actor.no_retry("driver")  # pylint: disable=no-value-for-parameter
     def receiveMsg_WakeupMessage(self, msg, sender):
@@ -374,6 +380,7 @@ class DriverActor(actor.RallyActor):
 
     def on_benchmark_complete(self, metrics):
         self.send(self.benchmark_actor, BenchmarkComplete(metrics))
+        veriftrace.enabled() and veriftrace.emit("driver", "final", kind="complete")
 
 
 def load_local_config(coordinator_config) -> types.Config:
@@ -818,11 +825,14 @@ class Driver:
                     self.workers.append(worker)
                     worker_id += 1
 
+        veriftrace.enabled() and veriftrace.emit("driver", "start", workers=len(self.workers), steps=self.number_of_steps, clients=len(self.allocations))
         self.update_progress_message()
 
     def joinpoint_reached(self, worker_id, worker_local_timestamp, task_allocations):
         self.currently_completed += 1
         self.workers_completed_current_step[worker_id] = (worker_local_timestamp, time.perf_counter())
+        jp = task_allocations[0].task.id if veriftrace.enabled() and task_allocations else -1
+        veriftrace.enabled() and veriftrace.emit("driver", "jp", w=worker_id, jp=jp, step=self.current_step, pending=len(self.workers) - self.currently_completed)
         self.logger.debug(
             "[%d/%d] workers reached join point [%d/%d].",
             self.currently_completed,
@@ -898,6 +908,7 @@ class Driver:
                 start_next_task,
             )
             self.driver_actor.drive_at(worker, worker_start_timestamp)
+        veriftrace.enabled() and veriftrace.emit("driver", "drive", step=self.current_step, n=len(self.workers))
 
     def may_complete_current_task(self, task_allocations):
         any_joinpoints_completing_parent = [a for a in task_allocations if a.task.any_task_completes_parent]
@@ -929,6 +940,7 @@ class Driver:
             self.complete_current_task_sent = True
             for worker in self.workers:
                 self.driver_actor.complete_current_task(worker)
+            veriftrace.enabled() and veriftrace.emit("driver", "complete", step=self.current_step, kind="any", n=len(self.workers))
 
         # If we have a specific 'completed-by' task specified, then we want to make sure that all clients for that task
         # are able to complete their runners as expected before completing the parent
@@ -957,6 +969,7 @@ class Driver:
                 self.logger.info("All affected clients have finished. Notifying all clients to complete their current tasks.")
                 for worker in self.workers:
                     self.driver_actor.complete_current_task(worker)
+                veriftrace.enabled() and veriftrace.emit("driver", "complete", step=self.current_step, kind="task", n=len(self.workers))
             else:
                 if len(pending_client_ids) > 32:
                     self.logger.info("[%d] clients did not yet finish.", len(pending_client_ids))
@@ -1008,6 +1021,7 @@ class Driver:
         raw_samples = self.raw_samples
         self.raw_samples = []
         self.sample_post_processor(raw_samples)
+        veriftrace.enabled() and veriftrace.emit("driver", "post", n=len(raw_samples))
 
 
 class SamplePostprocessor:
@@ -1268,6 +1282,7 @@ class Worker(actor.RallyActor):
         runner.register_default_runners(self.config)
         if self.track.has_plugins:
             track.load_track_plugins(self.config, self.track.name, runner.register_runner, scheduler.register_scheduler)
+        veriftrace.enabled() and veriftrace.emit("worker", "init", w=self.worker_id, clients=len(self.client_allocations.allocations))
         self.drive()
 
     @actor.no_retry("worker")  # pylint: disable=no-value-for-parameter
@@ -1282,6 +1297,7 @@ class Worker(actor.RallyActor):
         )
         self.start_driving = True
         self.wakeupAfter(sleep_time)
+        veriftrace.enabled() and veriftrace.emit("worker", "drive_rcvd", w=self.worker_id, idx=self.current_task_index)
 
     @actor.no_retry("worker")  # pylint: disable=no-value-for-parameter
     def receiveMsg_CompleteCurrentTask(self, msg, sender):
@@ -1299,6 +1315,7 @@ class Worker(actor.RallyActor):
                 "Worker[%s] has received CompleteCurrentTask. Completing tasks at index [%d].", str(self.worker_id), self.current_task_index
             )
             self.complete.set()
+        veriftrace.enabled() and veriftrace.emit("worker", "complete_rcvd", w=self.worker_id, idx=self.current_task_index, applied=self.complete.is_set())
 
     @actor.no_retry("worker")  # pylint: disable=no-value-for-parameter
     def receiveMsg_WakeupMessage(self, msg, sender):
@@ -1375,6 +1392,7 @@ class Worker(actor.RallyActor):
             self.executor_future = None
             self.sampler = None
             self.send(self.driver_actor, JoinPointReached(self.worker_id, task_allocations))
+            veriftrace.enabled() and veriftrace.emit("worker", "jp_sent", w=self.worker_id, idx=self.current_task_index, jp=task_allocations[0].task.id)
         else:
             # There may be a situation where there are more (parallel) tasks than workers. If we were asked to complete all tasks, we not
             # only need to complete actively running tasks but actually all scheduled tasks until we reach the next join point.
@@ -1384,6 +1402,7 @@ class Worker(actor.RallyActor):
                     self.worker_id,
                     self.current_task_index,
                 )
+                veriftrace.enabled() and veriftrace.emit("worker", "skip", w=self.worker_id, idx=self.current_task_index)
                 # nobody will wake us up for the skipped tasks, so continue right away until we reach the next join point.
                 self.drive()
             else:
@@ -1404,6 +1423,8 @@ class Worker(actor.RallyActor):
                 )
 
                 self.executor_future = self.pool.submit(executor)
+                names = ",".join(str(ta.task.task.name) for ta in task_allocations) if veriftrace.enabled() else ""
+                veriftrace.enabled() and veriftrace.emit("worker", "task_start", w=self.worker_id, idx=self.current_task_index, tasks=names, n=len(task_allocations))
                 self.wakeupAfter(datetime.timedelta(seconds=self.wakeup_interval))
 
     def at_joinpoint(self):
@@ -1421,6 +1442,7 @@ class Worker(actor.RallyActor):
             samples = self.sampler.samples
             if len(samples) > 0:
                 self.send(self.driver_actor, UpdateSamples(self.worker_id, samples))
+            veriftrace.enabled() and veriftrace.emit("worker", "samples_sent", w=self.worker_id, n=len(samples))
             return samples
         return None
 
